@@ -2,7 +2,7 @@
    by Print Assumptions. DB and Tok are arbitrary types; migrations are arbitrary step functions. *)
 From Coq Require Import List NArith Bool Arith Sorted.
 From Coq Require Import Lia ZifyN ZifyNat ZifyBool.
-From V Require Import C18.Model C18.Proofs C18.Proofs_BT C18.Proofs_Resume C18.Proofs_SDL.
+From V Require Import C18.Model C18.Proofs C18.Proofs_BT C18.Proofs_Resume C18.Proofs_SDL C18.Proofs_Io.
 Import ListNotations.
 
 (* A migration is recorded as applied only after its Migrate returned (nil, nil): in the event log
@@ -86,8 +86,9 @@ Proof. exact accepted_sound_lemma. Qed.
 Print Assumptions C18_accepted_sound.
 
 (* resume_same_db, runner level. For every schedule of process lifetimes — each cancelled after
-   an arbitrary number of writes and/or killed after an arbitrary number of writes, optional flags
-   fixed — a final uninterrupted run reaches the database of an uninterrupted run from the start,
+   an arbitrary number of writes and/or hit by an I/O error at an arbitrary write (both in
+   [b_cancel]: the migration then returns (nil, err), or the runner's own write fails) and/or
+   killed after an arbitrary number of writes, optional flags fixed — a final uninterrupted run reaches the database of an uninterrupted run from the start,
    namely the fold of the migrations' completion functions over the pending list; provided every
    registered migration is resumable (its steps keep its completion function [spec i] invariant,
    keep every valid resume token valid, and it finishes exactly in [spec i]; never (nil, ctx.Err()),
@@ -107,8 +108,8 @@ Theorem C18_resume_same_db :
   forall (bs : list boot) (s0 : @pstate DB Tok) st_ref st_fin,
   (forall j, lookup (inter s0) j = None) ->
   Forall (fun b => b_enabled b = enabled) bs ->
-  run_boot es fuel enabled None s0 = (st_ref, ROk) ->
-  run_boot es fuel enabled None (run_schedule es fuel bs s0) = (st_fin, ROk) ->
+  run_boot es fuel enabled no_intr s0 = (st_ref, ROk) ->
+  run_boot es fuel enabled no_intr (run_schedule es fuel bs s0) = (st_fin, ROk) ->
   pdb (ms_p st_fin) = pdb (ms_p st_ref) /\
   pdb (ms_p st_ref) =
     fold_left (fun d i => spec i d) (bits_of (vdiff (target_version es enabled) (cur s0))) (pdb s0) /\
@@ -116,6 +117,28 @@ Theorem C18_resume_same_db :
   bits_of (vdiff (target_version es enabled) (cur (ms_p st_ref))) = [].
 Proof. exact resume_same_db_lemma. Qed.
 Print Assumptions C18_resume_same_db.
+
+(* IoError interruptions: a Migrate call that returned an error (not the context's) is the last
+   thing that process lifetime did — Run returns an error, no resume token is stored and no bit is
+   applied after it (together with C18_bits_only_from_applied: the bit stays clear) *)
+Theorem C18_io_error_is_final :
+  forall (DB Tok : Type) (es : list (@migration DB Tok)) fuel enabled c (s : @pstate DB Tok) st r i,
+  run_boot es fuel enabled c s = (st, r) -> In (EReturn i Failed) (ms_log st) ->
+  r = RFailed /\ exists j l, ms_log st = EReturn j Failed :: l /\ no_failed Tok l.
+Proof. exact io_error_is_final_lemma. Qed.
+Print Assumptions C18_io_error_is_final.
+
+(* statedifflength's decision on the pipeline result: an error never yields a checkpoint; a
+   checkpoint is returned only for an error-free result whose source did not finish *)
+Theorem C18_statedifflength_error_never_checkpoints : forall is_done has_err next,
+  has_err = true -> sdl_decide is_done has_err next = SdlError.
+Proof. exact sdl_error_never_checkpoints. Qed.
+Print Assumptions C18_statedifflength_error_never_checkpoints.
+
+Theorem C18_statedifflength_checkpoint_only_when_clean : forall is_done has_err next n,
+  sdl_decide is_done has_err next = SdlCheckpoint n -> has_err = false /\ is_done = false /\ n = next.
+Proof. exact sdl_checkpoint_only_when_clean. Qed.
+Print Assumptions C18_statedifflength_checkpoint_only_when_clean.
 
 (* blocktransactions, block-granularity model: an uninterrupted run on any well-formed old-layout
    database in which every aligned range of 10 blocks holds a transaction serves every block
@@ -188,9 +211,9 @@ Proof.
 Qed.
 
 Example hypotheses_satisfiable :
-  let '(st, r) := run_boot [script 3 false; script 2 false] 20 0 (Some 3) s0 in
+  let '(st, r) := run_boot [script 3 false; script 2 false] 20 0 (cancel_after 3) s0 in
   r = RCancelled /\ cur (ms_p st) = 0%N /\ inter (ms_p st) = [(0, 2%N)] /\ pdb (ms_p st) = 2%N /\
-  let '(st', r') := run_boot [script 3 false; script 2 false] 20 0 None (ms_p st) in
+  let '(st', r') := run_boot [script 3 false; script 2 false] 20 0 no_intr (ms_p st) in
   r' = ROk /\ cur (ms_p st') = 3%N /\ inter (ms_p st') = [] /\ invocations (ms_log st') = [0; 1].
 Proof. vm_compute. repeat split; reflexivity. Qed.
 
@@ -220,15 +243,18 @@ Proof.
       inversion Hs; subst; (split; [|split; auto]); destruct t; simpl in *; lia.
 Qed.
 
-(* and a schedule with a cancellation, a crash and a restart ends where the straight run ends *)
+(* and a schedule with cancellations, crashes, I/O errors and restarts ends where the straight run ends *)
 Example resume_same_db_instance :
   let es := [script 3 false; script 2 false] in
-  let bs := [ {| b_enabled := 0; b_cancel := Some 2; b_crash := None |};
-              {| b_enabled := 0; b_cancel := None; b_crash := Some 2 |};
-              {| b_enabled := 0; b_cancel := Some 1; b_crash := Some 1 |} ] in
-  snd (run_boot es 20 0 None s0) = ROk /\
-  snd (run_boot es 20 0 None (run_schedule es 20 bs s0)) = ROk /\
-  pdb (ms_p (fst (run_boot es 20 0 None (run_schedule es 20 bs s0)))) = pdb (ms_p (fst (run_boot es 20 0 None s0))) /\
+  let bs := [ {| b_enabled := 0; b_cancel := cancel_after 2; b_crash := None |};
+              {| b_enabled := 0; b_cancel := no_intr; b_crash := Some 2 |};
+              {| b_enabled := 0; b_cancel := cancel_after 1; b_crash := Some 1 |};
+              {| b_enabled := 0; b_cancel := io_error_after 2; b_crash := None |};
+              {| b_enabled := 0; b_cancel := (Some 3, Some 1); b_crash := None |};
+              {| b_enabled := 0; b_cancel := io_error_after 0; b_crash := None |} ] in
+  snd (run_boot es 20 0 no_intr s0) = ROk /\
+  snd (run_boot es 20 0 no_intr (run_schedule es 20 bs s0)) = ROk /\
+  pdb (ms_p (fst (run_boot es 20 0 no_intr (run_schedule es 20 bs s0)))) = pdb (ms_p (fst (run_boot es 20 0 no_intr s0))) /\
   run_schedule es 20 bs s0 <> s0.
 Proof. vm_compute. repeat split; try reflexivity. discriminate. Qed.
 
@@ -240,9 +266,9 @@ Example C18_well_behaved_needed :
   applied_after_done (ms_log st) = false /\ vhas (cur (ms_p st)) 0 = true /\
   pdb (ms_p st) = 1%N /\ r = RCancelled /\
   (* ... and the next start considers the migration done *)
-  snd (run_boot [m] 20 0 None (ms_p st)) = ROk /\ pdb (ms_p (fst (run_boot [m] 20 0 None (ms_p st)))) = 1%N.
+  snd (run_boot [m] 20 0 no_intr (ms_p st)) = ROk /\ pdb (ms_p (fst (run_boot [m] 20 0 no_intr (ms_p st)))) = 1%N.
 Proof.
-  exists (script 3 true), (Some 2). split.
+  exists (script 3 true), (cancel_after 2). split.
   - intro H. apply (H 0%N None true). reflexivity.
   - vm_compute. repeat split; reflexivity.
 Qed.
@@ -253,7 +279,7 @@ Definition yielder : @migration N N :=
   {| mig_optional := false;
      mig_step := fun db tok c => match tok with None => (db, Yield 1%N) | Some _ => (N.succ db, Done) end |}.
 Example yield_runs_next_and_reports_success :
-  let '(st, r) := run_boot [yielder; script 1 false] 20 0 None s0 in
+  let '(st, r) := run_boot [yielder; script 1 false] 20 0 no_intr s0 in
   r = ROk /\ vhas (cur (ms_p st)) 0 = false /\ vhas (cur (ms_p st)) 1 = true /\
   invocations (ms_log st) = [0; 1].
 Proof. vm_compute. repeat split; reflexivity. Qed.
@@ -264,7 +290,7 @@ Proof. vm_compute. repeat split; reflexivity. Qed.
    CurrentVersion, so the run was accepted *)
 Example opted_in_beyond_registry_refused :
   let s := {| cur := 1; last := 3; inter := [(1, 1%N)]; pdb := 5%N |} in
-  let '(st, r) := run_boot [script 1 false] 20 0 None s in
+  let '(st, r) := run_boot [script 1 false] 20 0 no_intr s in
   r = RRefusedDowngrade /\ ms_p st = s.
 Proof. vm_compute. split; reflexivity. Qed.
 
@@ -320,3 +346,12 @@ Example statedifflength_resume_instance :
   sdl_migrate 1 sdb5 = Some (repeat None 3 ++ [Some {| s_len := 4; s_sdl := 4 |}; Some {| s_len := 2; s_sdl := 2 |}]) /\
   backfill_from sdb5 1 = None.
 Proof. vm_compute. split; reflexivity. Qed.
+
+(* an I/O error at the second unit of work: Run fails, nothing stored, bit clear; the restart
+   completes from scratch *)
+Example io_error_instance :
+  let '(st, r) := run_boot [script 3 false] 20 0 (io_error_after 2) s0 in
+  r = RFailed /\ cur (ms_p st) = 0%N /\ inter (ms_p st) = [] /\ pdb (ms_p st) = 1%N /\
+  snd (run_boot [script 3 false] 20 0 no_intr (ms_p st)) = ROk /\
+  pdb (ms_p (fst (run_boot [script 3 false] 20 0 no_intr (ms_p st)))) = 3%N.
+Proof. vm_compute. repeat split; reflexivity. Qed.
